@@ -116,8 +116,10 @@ func VerifyFunc(prog *Program, fi *FuncInfo, tier string) (res *UnitResult) {
 			if c.At == "return" {
 				continue
 			}
-			if site, ok := findCallSite(prog, fi, c.At).(*ast.CallExpr); ok {
-				u.atAsserts[site] = append(u.atAsserts[site], c)
+			for _, sn := range findCallSites(prog, fi, c.At) {
+				if site, ok := sn.(*ast.CallExpr); ok {
+					u.atAsserts[site] = append(u.atAsserts[site], c)
+				}
 			}
 		}
 	}
@@ -184,6 +186,18 @@ func VerifyFunc(prog *Program, fi *FuncInfo, tier string) (res *UnitResult) {
 	u.frames = []*retFrame{fr}
 	u.entry = st.clone()
 	u.writesTypeInv = u.functionWritesTypeInv()
+	// object invariants of the parameters hold on entry
+	if !u.writesTypeInv {
+		all := append([]Val{}, u.entryParams...)
+		if u.entryRecv != nil {
+			all = append(all, *u.entryRecv)
+		}
+		for _, pv := range all {
+			if pt, ok := pv.GT.Underlying().(*types.Pointer); ok && pv.S == "Int" {
+				u.assumeTypeInv(st, pv, pt.Elem())
+			}
+		}
+	}
 	// preconditions
 	if u.con != nil {
 		for _, c := range u.con.Requires {
@@ -221,10 +235,26 @@ func (u *Unit) checkPost(st *State, vals []Val, ord int) {
 		}
 		u.oblige(st, name, "post", g, u.clauseProps(c), c, "postcondition: "+c.Text, nil)
 	}
+	if u.con.Propagates {
+		sig := u.fi.Obj.Type().(*types.Signature)
+		n := sig.Results().Len()
+		if n > 0 && isErrorLike(sig.Results().At(n-1).Type()) && len(vals) == n {
+			ret := vals[n-1].T
+			var conj []string
+			for _, e := range st.errs {
+				conj = append(conj, implies(not(eq(e.term, "0")), not(eq(ret, "0"))))
+			}
+			props := u.con.PropProps
+			if len(props) == 0 {
+				props = u.con.Props
+			}
+			u.oblige(st, "err-propagation", "propagate", and(conj...), props, nil, "an error obtained from a nested call is never dropped: the function returns a non-nil error whenever one of them is non-nil", nil)
+		}
+	}
 	for _, c := range u.con.Asserts {
 		if c.At == "return" {
-			g := u.evalClause(c, st, u.entry, nil, nil)
-			u.oblige(st, "at#return#"+fmt.Sprint(c.Line), "assert", g, u.clauseProps(c), c, "assertion at every normal return: "+c.Text, nil)
+			g := u.evalClause(c, st, u.entry, nil, &roleVals{results: vals})
+			u.oblige(st, "at#return#"+fmt.Sprint(u.assertOrdinal(c)), "assert", g, u.clauseProps(c), c, "assertion at every normal return: "+c.Text, nil)
 		}
 	}
 	u.checkFrameAtExit(st)
